@@ -413,7 +413,19 @@ func mustGoCallable(name string, ext Extension) *goCallable {
 
 func lookup(v reflect.Value, name string) (interface{}, error) {
 
-	res, err := evalName(&jparse.NameNode{Value: name}, v, nil)
+	var res reflect.Value
+	var err error
+
+	if jtypes.IsArray(jtypes.Resolve(v)) {
+		// Looking a name up in an array of objects is the field
+		// selection of that name on the array: array-valued
+		// members are spliced into the result, as a path does.
+		res, err = evalPath(&jparse.PathNode{
+			Steps: []jparse.Node{&jparse.NameNode{Value: name}},
+		}, v, nil)
+	} else {
+		res, err = evalName(&jparse.NameNode{Value: name}, v, nil)
+	}
 	if err != nil {
 		return nil, err
 	}
